@@ -756,3 +756,43 @@ func (p *Program) spilledParam(a *ssa.Alloc) *ssa.Parameter {
 	}
 	return p.spills[a]
 }
+
+// LinNorm normalises integer expressions of the form floor((base + off)/den) + add
+// built from +, - and / by constants, so that i/2+1-1, (i+2)/2-1 and i/2 agree.
+func LinNorm(e *Expr) (base string, den, off, add int64, ok bool) {
+	for e != nil && e.Op == "conv" {
+		e = e.Args[0]
+	}
+	if e == nil {
+		return "", 0, 0, 0, false
+	}
+	if e.Op == "leaf" {
+		if v, isC := constVal(e.Name); isC && isConstStr(e.Name) {
+			return "", 1, 0, v, true
+		}
+		return e.String(), 1, 0, 0, true
+	}
+	if e.Op == "bin" && (e.Name == "+" || e.Name == "-") {
+		b1, d1, o1, a1, ok1 := LinNorm(e.Args[0])
+		b2, d2, o2, a2, ok2 := LinNorm(e.Args[1])
+		if ok1 && ok2 && b2 == "" && d2 == 1 && o2 == 0 {
+			if e.Name == "-" {
+				a2 = -a2
+			}
+			return b1, d1, o1, a1 + a2, true
+		}
+		if ok1 && ok2 && b1 == "" && d1 == 1 && o1 == 0 && e.Name == "+" {
+			return b2, d2, o2, a1 + a2, true
+		}
+		return e.String(), 1, 0, 0, true
+	}
+	if e.Op == "bin" && e.Name == "/" {
+		b1, d1, _, a1, ok1 := LinNorm(e.Args[0])
+		b2, d2, o2, a2, ok2 := LinNorm(e.Args[1])
+		if ok1 && ok2 && b2 == "" && d2 == 1 && o2 == 0 && a2 > 0 && d1 == 1 && a1 >= 0 {
+			return b1, a2, a1 % a2, a1 / a2, true
+		}
+		return e.String(), 1, 0, 0, true
+	}
+	return e.String(), 1, 0, 0, true
+}
